@@ -23,6 +23,7 @@ import RdfModel.Driver.PIRI
 import RdfModel.Driver.IriUnify
 import RdfModel.Driver.JsonLd
 import RdfModel.Driver.JsonLdToRdf
+import RdfModel.Driver.JsonLdCtx
 import RdfModel.Driver.RdfXml
 import RdfModel.Driver.RdfXmlDec
 import RdfModel.Driver.Pipe
@@ -47,6 +48,7 @@ def dispatch (line : String) : String :=
         else if comp = "pm" then Driver.Prefix.handle op args
         else if comp = "jl" then Driver.JsonLd.handle op args
         else if comp = "jld" then Driver.JsonLdToRdf.handle op args
+        else if comp = "ctx" then Driver.JsonLdCtx.handle op args
         else if comp = "rj" then Driver.RdfJson.handle op args
         else if comp = "canon" then Driver.Canon.handle op args
         else if comp = "ttl" then Driver.Ttl.handle op args
